@@ -1857,3 +1857,23 @@ Proof.
       exfalso. apply (Hnc src). apply in_or_app. right. now left.
   - simpl. now rewrite Z.eqb_refl.
 Qed.
+
+(* ==== a warm-started job is launched with the copied checkpoint in place ===================== *)
+Lemma has_ckpt_after_copy p t j : has_ckpt (p ++ [EStart t (Some j); ECopy j t]) t = has_ckpt p j.
+Proof.
+  change (p ++ [EStart t (Some j); ECopy j t]) with (p ++ [EStart t (Some j)] ++ [ECopy j t]).
+  rewrite app_assoc, has_ckpt_snoc. simpl. rewrite Z.eqb_refl. now rewrite has_ckpt_snoc.
+Qed.
+
+Theorem warm_start_checkpoint_at_launch {S R G} (sch : scheduler S R G) (c : cfg) :
+  forall st its pre t post, run sch c st its = pre ++ ESchedule t :: post ->
+    (exists p, pre = p ++ [EStart t None]) \/ (exists p, pre = p ++ [EResume t]) \/
+    (exists p j, pre = p ++ [EStart t (Some j); ECopy j t] /\ has_ckpt pre t = has_ckpt p j).
+Proof.
+  intros st its pre t post E.
+  destruct (copy_before_schedule sch c st its pre t post E) as [H|[[p [j Hp]]|H]]; [now left| |right; now left].
+  right; right. exists p, j. split; [exact Hp|]. subst pre. apply has_ckpt_after_copy.
+Qed.
+
+Theorem fs_schedule_keeps f t f' : fs_step f (FsSchedule t) = Some f' -> f' = f.
+Proof. simpl. intros H. now injection H as <-. Qed.
